@@ -34,6 +34,10 @@ class Formatter(AbstractFormatter):
     def root(self) -> str:
         return self._root
 
+    def _copy_path(self, path: PathHolder) -> PathHolder:
+        # the operands of a path (keys, indexes) are shared with the copy, not copied
+        return deepcopy(path, {id(x.operand): x.operand for x in path})
+
     def _format_path(self, path: PathHolder) -> str:
         return str(path.__class__(self._root, [x for x in path]))
 
@@ -127,7 +131,7 @@ class Formatter(AbstractFormatter):
                 f"but {self._repr(error.actual_value)} given")
 
     def format_missing_element_error(self, error: MissingElementValidationError) -> str:
-        path = deepcopy(error.path)
+        path = self._copy_path(error.path)
         formatted_path = self._format_path(path[error.index])
         return f"Element {formatted_path} does not exist"
 
@@ -136,7 +140,7 @@ class Formatter(AbstractFormatter):
         return f"Value{formatted_path} contains extra element at index {self._repr(error.index)}"
 
     def format_missing_key_error(self, error: MissingKeyValidationError) -> str:
-        path = deepcopy(error.path)
+        path = self._copy_path(error.path)
         formatted_path = self._format_path(path[error.missing_key])
         return f"Key {formatted_path} does not exist"
 
